@@ -429,6 +429,15 @@ class Model:
         return res
 
     def check_races(self):
+        for name, ticks in getattr(self, 'push_acts', {}).items():
+            by_time = {}
+            for (t, tick) in ticks:
+                by_time.setdefault(t, set()).add(tick)
+            if any(len(v) > 1 for v in by_time.values()):
+                raise Ambiguous('%s: interrupted from several activations of one time step' % name)
+        self._check_races()
+
+    def _check_races(self):
         # an interrupt racing, within one time step, with the completion of a wait that had begun before
         for name, ps in self.pushes.items():
             for (t, sq) in ps:
@@ -557,6 +566,7 @@ class Model:
                     p.log.append((i, 'double', self.now, None))
                 else:
                     p.log.append((i, 'done', self.now, None))
+                    ev.triggered_by, ev.trigger_tick = p.name, getattr(self, 'tick', 0)
                     self.trigger(ev, ('ok', s.get('v')) if op == 'succeed' else ('fail', s['x']))
             elif op == 'spawn':
                 c = MProc(s['child'], p.phase)
@@ -604,6 +614,7 @@ class Model:
                     if tgt.alive:
                         tgt.interrupts.append(s.get('cause'))
                         self.pushes.setdefault(tgt.name, []).append((self.now, self.seq))
+                        self.__dict__.setdefault('push_acts', {}).setdefault(tgt.name, []).append((self.now, getattr(self, 'tick', 0)))
                         self.push(self.now, ('interrupt', tgt))
             elif op == 'native':
                 k = s['kind']
@@ -672,11 +683,13 @@ class Model:
             if tgt.alive:
                 tgt.interrupts.append(cause)
                 self.pushes.setdefault(tgt.name, []).append((self.now, self.seq))
+                self.__dict__.setdefault('push_acts', {}).setdefault(tgt.name, []).append((self.now, getattr(self, 'tick', 0)))
                 if not hasattr(self, 'push_ticks'):
                     self.push_ticks = {}
-                # (issued by a callback, after the process that triggered the event has yielded again: a wait of the
-                #  target that completed before this moment does not race with the interrupt)
-                self.push_ticks[(tgt.name, self.now, self.seq)] = self.tick
+                # (a callback of an event that the target itself triggered: what the target had completed before it
+                #  triggered the event is causally earlier than this interrupt and does not race with it)
+                if getattr(ev, 'triggered_by', None) == tgt.name:
+                    self.push_ticks[(tgt.name, self.now, self.seq)] = ev.trigger_tick + 1
                 self.push(self.now, ('interrupt', tgt))
         if ev.defuser:
             ev.handled = True      # the callbacks run first, then the failure is looked at
